@@ -232,6 +232,8 @@ def factories(rep, fns):
             got = cs[0][1]
             w = want_args[fac]
             ok = got == w or same_arity_members(got, w)
+            if ok and got != "($0)":
+                ok = ctor_order(fns, f, got)
         key = "D2:%s_fn" % fac
         if ok:
             rep.ok("D2-factory", key + ":" + f["full"][-14:], cs)
@@ -249,15 +251,35 @@ def factories(rep, fns):
                 a = [rn(R.key(x)) for x in visits[0][0]["args"]]
                 fnname = short + "_fn"
                 ok = (fnname in a[0] or (short == "transposed_view" and "tranposed_view_fn" in a[0])) and a[1:] == ["$0"]
+                # the functor receives the overload's parameters in declaration order, each once (the static overloads'
+                # meaning of (x_min, y_min, width, height), (x_step, y_step), ... is positional)
+                ok = ok and params_in_order(a[0], len(f["params"]) - 1)
                 det = a
             else:
                 deleg = [rn(R.key(c)) for c, p in R.calls_in(f["body"], lambda n: n == "boost::gil::" + short)]
-                ok = len(deleg) == 1 and deleg[0].startswith(short + "($0,")
+                ok = len(deleg) == 1 and deleg[0].startswith(short + "($0,") and params_in_order(deleg[0], len(f["params"]) - 1)
                 det = deleg
             if ok:
                 rep.ok("D2-visit", key + ":" + str(len(f["params"])), [str(x)[:120] for x in det])
             else:
                 rep.violation("D2-visit", key, R.fn_where(f), {"calls": [str(x)[:160] for x in det]})
+
+
+def ctor_order(fns, opf, got):
+    """the k-th stored parameter passed by operator() is the member the constructor initialises from its k-th parameter"""
+    members = got.strip("()").split(",")[1:]
+    ctors = [c for c in fns if c.get("cls") == opf.get("cls") and c["name"].split("::")[-1] == c["name"].split("::")[-2] and len(c["params"]) == len(members)]
+    if not ctors:
+        return False
+    c = ctors[0]
+    rn = R.param_renamer(c)
+    inits = {i.get("member"): rn(R.key(i["init"])) for i in c.get("inits", []) if i.get("member")}
+    return all(inits.get(m) == "$%d" % k for k, m in enumerate(members))
+
+
+def params_in_order(expr, n):
+    """the placeholders $1..$n occur in expr exactly once each, in increasing order"""
+    return re.findall(r"\$(\d+)", expr) == [str(i) for i in range(1, n + 1)]
 
 
 def same_arity_members(got, want):
